@@ -6,7 +6,7 @@
    ops) and by the table Gen/C13Consts.v printed from the compiled package. *)
 From Coq Require Import Floats.SpecFloat.
 From HV Require Import Base.Prelude Patch.Msgpack Patch.Path Patch.Float Patch.Ops Patch.Cond
-  Patch.DocSpec Patch.MsgpackProofs Patch.OpsProofs Patch.FrameProofs Patch.RefineProofs Patch.MergeProofs Gen.C13Consts.
+  Patch.DocSpec Patch.MsgpackProofs Patch.OpsProofs Patch.FrameProofs Patch.RefineProofs Patch.MergeProofs Patch.FloatExamples Gen.C13Consts.
 Local Open Scope N_scope.
 
 (* All 256 lead bytes: the model's classifiers (map/array/string/integer/float code, numeric
@@ -171,3 +171,15 @@ Theorem C13_merge_has_all_keys : forall pfs target k,
   In k (map fst pfs) -> In k (keys (merge_into target pfs)).
 Proof. exact merge_into_has_all_keys. Qed.
 Print Assumptions C13_merge_has_all_keys.
+
+(* A float32 field is compared with a float64 threshold at float64 precision (the field is widened
+   exactly, the threshold never narrowed): 0.1f > 0.1, 0.1f equals only its exact float64 image,
+   1f < 1+2^-52, float32 max < 1e300. *)
+Theorem C13_float32_field_vs_float64_threshold :
+  compare_leaf cfg_fixed f32_0_1 f64_0_1 = Ok CGt /\
+  compare_leaf cfg_fixed f64_0_1 f32_0_1 = Ok CLt /\
+  compare_leaf cfg_fixed f32_0_1 f64_of_f32_0_1 = Ok CEq /\
+  compare_leaf cfg_fixed f32_1 f64_1_eps = Ok CLt /\
+  compare_leaf cfg_fixed f32_max f64_1e300 = Ok CLt.
+Proof. exact float32_field_vs_float64_threshold. Qed.
+Print Assumptions C13_float32_field_vs_float64_threshold.
